@@ -271,9 +271,16 @@ def _prod(key):
         red0 = op0.reduce()
     except Exception as ex:  # noqa: BLE001
         return violation(f'reduce() raises {type(ex).__name__}: {str(ex)[:100]} on {show(e)}', signature=f'c10-prod-raises:{show(e)}', kind='prod-raises')
+    if not structs_equal(red0.in_structure(), op0.in_structure()) or not structs_equal(red0.out_structure(), op0.out_structure()):
+        return violation(f'reduce() of adjacent block operators changes the structures: {show(e)} -> in {describe_struct(red0.in_structure())} '
+                         f'out {describe_struct(red0.out_structure())}, expected in {describe_struct(op0.in_structure())} out {describe_struct(op0.out_structure())}',
+                         signature=f'c10-prod-struct:{le[0]}@{re[0]}:{le[1]}', kind='prod-type')
     n = len(le[2])
     exp = {('row', 'diag'): BlockRowOperator, ('diag', 'col'): BlockColumnOperator, ('diag', 'diag'): BlockDiagonalOperator,
            ('row', 'col'): AdditionOperator}[(le[0], re[0])]
+    if n >= 2 and not isinstance(red0, (exp, CompositionOperator)) and not (exp is AdditionOperator):
+        return violation(f'adjacent block operators {show(e)} simplify to {type(red0).__name__}, expected {exp.__name__}',
+                         signature=f'c10-prod-class:{le[0]}@{re[0]}', kind='prod-type')
     if isinstance(red0, CompositionOperator) and len(red0.operands) == 2 and type(red0.operands[0]).__name__.startswith('Block'):
         return violation(f'adjacent block operators {show(e)} are not simplified (reduce() returns {optree(red0)!r})'[:300],
                          signature=f'c10-prod-unreduced:{le[0]}@{re[0]}', kind='prod-type')
